@@ -143,6 +143,22 @@ def tokens(v):
     return tokens(v[1])
 
 
+def coqchk_extra(chk, ctx, modules):
+    """thorough tier: re-check the compiled property modules (and everything they depend on) with coqchk"""
+    if ctx.get("tier") != "thorough" or not ctx["coq"]["ok"]:
+        return
+    import time
+    t0 = time.time()
+    with framework.Lock("coq"):
+        rc, out = framework.sh(["coqchk", "-silent", "-o", "-Q", "theories", "Nitro"] + modules, cwd=framework.COQ, timeout=1800)
+    ok = rc == 0 and "* Axioms: <none>" in out
+    ctx.setdefault("coverage_extra", {})["coqchk"] = dict(modules=modules, ok=ok, seconds=round(time.time() - t0, 1),
+                                                          summary=" ".join(out[-600:].split()))
+    if not ok:
+        ctx["violations"].append((" no-failing-input-found", dict(property=chk.prop, kind="proof", broken="coqchk rejects the compiled theorems or finds axioms",
+                                                                   log=out[-4000:])))
+
+
 class C16(Check):
     prop = "C16"
     title = "Hashing agrees with equality, and comparison with the member tuple"
@@ -328,6 +344,9 @@ class C16(Check):
                 ins = [rng.choice(probes) for _ in range(k)]   # with repetitions
                 kind = rng.choice(["set", "map"])
                 yield "%s %s %s %s" % (kind, t, ";".join(W(v) for v in ins) or ".", ";".join(W(v) for v in probes) or "."), "container"
+
+    def extra(self, ctx):
+        coqchk_extra(self, ctx, ["Nitro.Properties.Properties_C16", "Nitro.Tie.Tie_C16"])
 
     # ---- bookkeeping ----
     def nontrivial(self, case, mobs, iobs):
